@@ -594,3 +594,33 @@ pub fn query_add(store: &mut AnnotationStore, a: &Value, style: IdStyle) -> Resu
     })?.count();
     Ok(n as i64 * 0)
 }
+
+// ------------------------------------------------------------------------------------------ QueryDelete event (C02)
+
+/// DELETE <TYPE> ?x { sub-query }   (the sub-query binds ?x and has the same result type)
+pub fn query_delete(store: &mut AnnotationStore, a: &Value, style: IdStyle) -> Result<i64, StamError> {
+    let sub: QAst = serde_json::from_value(a["sub"].clone()).expect("harness: sub-query ast");
+    let subtext = build_query(&sub, style).to_string()?;
+    let text: &'static str = leak(format!("DELETE {} ?{} {{ {} }}", sub.rt, sub.name, subtext));
+    if std::env::var("VERIF_DEBUG_QUERY").is_ok() {
+        eprintln!("QueryDelete: {}", text);
+    }
+    let dbg = std::env::var("VERIF_DEBUG_QUERY").is_ok();
+    let query: Query<'static> = text.try_into().map_err(|e| {
+        if dbg {
+            eprintln!("  parse error: {}", e);
+        }
+        e
+    })?;
+    let store: &'static mut AnnotationStore = unsafe { &mut *(store as *mut AnnotationStore) };
+    let _ = store
+        .query_mut(query)
+        .map_err(|e| {
+            if dbg {
+                eprintln!("  query error: {}", e);
+            }
+            e
+        })?
+        .count();
+    Ok(0)
+}
